@@ -6,6 +6,7 @@ import (
 	"fmt"
 	"go/types"
 	"sort"
+	"strings"
 )
 
 const (
@@ -25,6 +26,9 @@ func init() {
 		"os.WriteFile":        extWriteFile,
 		"os.ReadDir":          extReadDir,
 		"os.Remove":           extRemove,
+		"os.Stat":             extStat,
+		"os.Lstat":            extStat,
+		"os.IsNotExist":       extIsNotExist,
 		"os.Getenv":           extGetenv,
 		"os.LookupEnv":        extLookupEnv,
 		"(*os.File).Write":    extFileWrite,
@@ -48,7 +52,55 @@ func init() {
 func nilErr() value { return iface{} }
 
 func (i *interpreter) fsErr(op string, path value) value {
-	return i.mkError(op + " " + toString(path) + ": file system error")
+	e := i.mkError(op + " " + toString(path) + ": file system error")
+	if strings.Contains(op, "no such") {
+		T := i.namedType(vxPkg, "Err")
+		setField(e.(iface).v.(*value), T, "NotExist", true)
+	}
+	return e
+}
+
+func extStat(fr *frame, args []value) value {
+	i := fr.i
+	i.yield()
+	fs := i.path.fs
+	fs.reads++
+	if i.fsFault("stat") {
+		return tuple{iface{}, i.fsErr("stat", args[0])}
+	}
+	dir, name := i.splitPath(args[0])
+	T := i.namedType(vxPkg, "FileInfo")
+	if fs.isDirPath(i, dir, name) {
+		p := newStruct(T)
+		setField(p, T, "N", name)
+		setField(p, T, "Dir", true)
+		return tuple{iface{t: types.NewPointer(T), v: p}, nilErr()}
+	}
+	n := fs.find(i, dir, name)
+	if n == nil {
+		return tuple{iface{}, i.fsErr("stat (no such file or directory)", args[0])}
+	}
+	p := newStruct(T)
+	setField(p, T, "N", n.name)
+	setField(p, T, "Sz", int64(len(n.data)))
+	return tuple{iface{t: types.NewPointer(T), v: p}, nilErr()}
+}
+
+func extIsNotExist(fr *frame, args []value) value {
+	i := fr.i
+	err := args[0].(iface)
+	T := i.namedType(vxPkg, "Err")
+	for depth := 0; depth < 20 && err.t != nil; depth++ {
+		if p, ok := err.t.(*types.Pointer); ok && types.Identical(p.Elem(), T) {
+			return getField(err.v.(*value), T, "NotExist")
+		}
+		m := findMethod(i, err.t, "Unwrap")
+		if m == nil {
+			return false
+		}
+		err = call(i, fr, fr.callpos, m, []value{err.v}).(iface)
+	}
+	return false
 }
 
 func extMkdirAll(fr *frame, args []value) value {
